@@ -1,4 +1,4 @@
-(* C04: on an expression without backslash, curly or square bracket and `<`, the preparation of a regex is the identity:
+(* C04: on an expression without backslash, curly or square bracket, the preparation of a regex is the identity:
    the regex crate is given the expression as it was written. *)
 From Coq Require Import List NArith Lia Bool Arith ZifyBool ZifyNat ZifyN.
 Import ListNotations.
@@ -6,33 +6,19 @@ From SV Require Import RegexPrep.
 Local Open Scope N_scope.
 
 Definition plain_char (c : N) : bool :=
-  negb (c =? 92) && negb (c =? 123) && negb (c =? 125) && negb (c =? 91) && negb (c =? 93) && negb (c =? 60).
+  negb (c =? 92) && negb (c =? 123) && negb (c =? 125) && negb (c =? 91) && negb (c =? 93).
 
 Lemma cleanup_plain : forall s, forallb plain_char s = true -> cleanup s = s.
 Proof.
   induction s as [|c r IH]; intros H; [reflexivity|]. cbn [forallb] in H. apply andb_true_iff in H. destruct H as [Hc Hr].
   cbn [cleanup]. unfold plain_char in Hc. destruct (c =? 92) eqn:E; [lia|]. rewrite (IH Hr). reflexivity.
 Qed.
-Lemma mark_plain : forall f s, forallb plain_char s = true -> mark_quantifiers f s = s.
+Lemma rep_plain : forall f s, forallb plain_char s = true -> misused_rep f s = s.
 Proof.
   induction f as [|f IH]; intros s H; [reflexivity|]. destruct s as [|c r]; [reflexivity|].
   cbn [forallb] in H. apply andb_true_iff in H. destruct H as [Hc Hr].
-  cbn [mark_quantifiers]. unfold plain_char in Hc. destruct (c =? 123) eqn:E; [lia|]. rewrite (IH r Hr). reflexivity.
-Qed.
-Lemma curly_plain : forall s, forallb plain_char s = true -> escape_curly s = s.
-Proof.
-  induction s as [|c r IH]; intros H; [reflexivity|]. cbn [forallb] in H. apply andb_true_iff in H. destruct H as [Hc Hr].
-  cbn [escape_curly]. unfold plain_char in Hc. destruct (c =? 92) eqn:E; [lia|].
-  destruct ((c =? 123) || (c =? 125)) eqn:E2; [lia|]. rewrite (IH Hr). reflexivity.
-Qed.
-Lemma restore_plain : forall f s, forallb plain_char s = true -> restore_quantifiers f s = s.
-Proof.
-  induction f as [|f IH]; intros s H; [reflexivity|]. destruct s as [|c r]; [reflexivity|].
-  cbn [forallb] in H. apply andb_true_iff in H. destruct H as [Hc Hr].
-  cbn [restore_quantifiers]. unfold plain_char in Hc.
-  assert (S4: pstarts LT4 (c :: r) = false).
-  { unfold LT4. cbn [pstarts]. destruct (60 =? c) eqn:E; [lia|reflexivity]. }
-  rewrite S4, (IH r Hr). reflexivity.
+  cbn [misused_rep]. unfold plain_char in Hc. destruct (c =? 123) eqn:E1; [lia|]. destruct (c =? 125) eqn:E2; [lia|].
+  destruct (c =? 92) eqn:E3; [lia|]. rewrite (IH r Hr). reflexivity.
 Qed.
 Lemma class_plain : forall s b, forallb plain_char s = true -> misused_class b s = s.
 Proof.
@@ -44,7 +30,7 @@ Qed.
 Theorem prepare_plain : forall e, forallb plain_char e = true -> regex_prepare e = e.
 Proof.
   intros e H. unfold regex_prepare, misused_repetition.
-  rewrite (cleanup_plain e H), (mark_plain _ e H), (curly_plain e H), (restore_plain _ e H). apply class_plain. exact H.
+  rewrite (cleanup_plain e H), (rep_plain _ e H). apply class_plain. exact H.
 Qed.
 
 (* the three documented cases of the source comments, and a few corners *)
@@ -57,5 +43,9 @@ Example prepare_examples :
   /\ regex_prepare [91;91;93;93] = [91;92;91;92;93;93]
   /\ regex_prepare [91;97;45;122;93] = [91;97;45;122;93]
   /\ regex_prepare [102;92;95;98] = [102;95;98]
-  /\ regex_prepare [97;92] = [97;92].
+  /\ regex_prepare [97;92] = [97;92]
+  (* a<<<<3>>>> stays (it used to come out as a{3});  \{3} stays;  \{x} -> \{x\} *)
+  /\ regex_prepare [97;60;60;60;60;51;62;62;62;62] = [97;60;60;60;60;51;62;62;62;62]
+  /\ regex_prepare [92;123;51;125] = [92;123;51;125]
+  /\ regex_prepare [92;123;120;125] = [92;123;120;92;125].
 Proof. repeat split; vm_compute; reflexivity. Qed.
